@@ -309,7 +309,8 @@ var stringAlphaBase = []string{"a", "x", "'", "\"", "\\", "n", "{", "}", "\n", "
 // that Python and asp read differently (\x41, \101, \u0041 start with these)
 var stringAlphaExtra = []string{"\t", "\x01", "\x7f", "\u00e9", "\\x41", "\\101", "\\u0041", "\\a", "\\r", "\\0", "$"}
 
-func genStrings(alpha []string, minLen, maxLen int, emit emitFn) {
+// genStrings: contents made only of the first skipPure symbols are left out (another call covers them).
+func genStrings(alpha []string, minLen, maxLen, skipPure int, emit emitFn) {
 	prefixes := []string{"", "r", "f"}
 	quotes := []string{"\"", "'", "\"\"\"", "'''"}
 	for n := minLen; n <= maxLen; n++ {
@@ -317,9 +318,16 @@ func genStrings(alpha []string, minLen, maxLen int, emit emitFn) {
 			var sb strings.Builder
 			x := idx
 			parts := make([]string, n)
+			pure := skipPure > 0
 			for i := n - 1; i >= 0; i-- {
 				parts[i] = alpha[x%len(alpha)]
+				if x%len(alpha) >= skipPure {
+					pure = false
+				}
 				x /= len(alpha)
+			}
+			if pure {
+				continue
 			}
 			for _, s := range parts {
 				sb.WriteString(s)
@@ -837,9 +845,9 @@ func main() {
 		emit := func(p prog) { ch <- p }
 		if quick {
 			genLiterals(emit)
-			genStrings(stringAlphaBase, 0, 2, emit)
-			genStrings([]string{"a", "'", "\"", "\\", "n", "{", "\n"}, 3, 3, emit) // length 3 over the 7 symbols that interact
-			genStrings(append(append([]string{}, stringAlphaBase...), stringAlphaExtra...), 1, 2, emit)
+			genStrings(stringAlphaBase, 0, 2, 0, emit)
+			genStrings([]string{"a", "'", "\"", "\\", "n", "{", "\n"}, 3, 3, 0, emit) // length 3 over the 7 symbols that interact
+			genStrings(append(append([]string{}, stringAlphaBase...), stringAlphaExtra...), 1, 2, len(stringAlphaBase), emit)
 			genConcat(2, emit)
 			genExprs(3, emit)
 			genDefs(1, emit)
@@ -849,8 +857,8 @@ func main() {
 			genCorpus(emit)
 		} else {
 			genLiterals(emit)
-			genStrings(stringAlphaBase, 0, 4, emit)
-			genStrings(append(append([]string{}, stringAlphaBase...), stringAlphaExtra...), 1, 3, emit)
+			genStrings(stringAlphaBase, 0, 4, 0, emit)
+			genStrings(append(append([]string{}, stringAlphaBase...), stringAlphaExtra...), 1, 3, len(stringAlphaBase), emit)
 			genConcat(3, emit)
 			genExprs(4, emit)
 			genDefs(2, emit)
